@@ -255,6 +255,15 @@ def loop_shape(ck, ctx):
         elif e_[0] == "bin" and e_[1] == "Gt" and e_[3] == ("const", 0) and Q.gated(cfg, sbb, not_running)[0] and Q.gated(cfg, sbb, flag_edges)[0]:
             G.add((sbb, tl))
             brks.append(sbb)
+    # and conversely: with nothing running, no progress and a failure on record, the loop is left for the epilogue at once
+    # (looping again would spin for ever, falling through would hit the internal-error panic)
+    okl = bool(brks)
+    for sbb in brks:
+        tl_, fl_ = Q.bool_edges(b.blocks[sbb]["term"])
+        st_ = cfg.edge_targets(sbb, tl_)
+        r_ = cfg.reach_avoid(st_, avoid_blocks=finals)
+        okl = okl and outer not in r_ and not any(p_ in r_ for p_ in panics) and not any(w in r_ for w, _ in waits) and any(f in cfg.reach_avoid(st_) for f in finals)
+    ck.ob("loop-shape", "stuck-after-failure-leaves-loop", okl, "when nothing runs, nothing progressed and a task has failed, control goes straight to the epilogue: not back to the loop test, not to the wait, not to the internal-error panic", span=b.loc, fn=b.nname)
     okb = bool(finals) and all(Q.gated(cfg, f, G)[0] for f in finals)
     ck.ob("loop-shape", "break-only-after-failure", okb, "the normal epilogue is reached only when unfinished() is false, or by `tasks_failed > 0` with nothing running and no progress (break tests %s)" % brks, span=b.loc, fn=b.nname)
 
@@ -300,6 +309,9 @@ def run(ck, ctx):
     ck.ob("pending-paired", "terminal-states", not any(p in ("Failed", "Done") for p, n in rel), "Done and Failed have no outgoing transition (relation %s)" % rel, span=SM.SET)
     loop_shape(ck, ctx)
     worker_reports(ck, ctx)
+    from . import fancy as FY
+    FY.shutdown(ck, ctx)
+    FY.thread(ck, ctx)
 
 
 def run_config(ck, ctx):
